@@ -30,6 +30,22 @@ def numval(e):
     return float(e[1])
 
 
+def src_const(x):
+    """A constant of the SOURCE program means the decimal number the user wrote (1.8 is 18/10), not the
+    double the compiler stores for it: whether 1.8*x >= 5.4 admits x = 3 is decided in the user's arithmetic;
+    what the compiler's float arithmetic makes of it is the thing under test.  (Dyadic constants are the same
+    in both readings.)"""
+    if isinstance(x, str):
+        t = x.strip()
+        if t.lower() in ('inf', '+inf', '-inf', 'nan'):
+            return Fraction(0)   # never a legal source constant of the families; callers guard non-finite values
+        try:
+            return Fraction(t)
+        except (ValueError, ZeroDivisionError):
+            return Fraction(float(t))
+    return Fraction(repr(float(x))) if float(x) == float(x) and abs(float(x)) != INF else Fraction(0)
+
+
 def truthy(t):
     return t != 0
 
@@ -44,7 +60,7 @@ LOGIC_TAGS = {'and', 'or', 'not', 'xor', 'implies', 'iff', 'band', 'bor', 'bxor'
 def val(e, env):
     t = e[0]
     if t == 'num':
-        return Q(e[1])
+        return z3.RealVal(str(src_const(e[1])))
     if t == 'var':
         return env[e[1]]
     if t == 'neg':
@@ -165,7 +181,7 @@ def pyval(e, env):
     """exact evaluation with Fractions; raises ZeroDivisionError on x/0"""
     t = e[0]
     if t == 'num':
-        return Fraction(float(e[1]))
+        return src_const(e[1])
     if t == 'var':
         return Fraction(env[e[1]])
     if t == 'neg':
